@@ -390,8 +390,10 @@ func (t *ControllableTask) Launch() error {
 					WithField("taskId", t.ti.Name).
 					Debug("sending SIGKILL (9) to task")
 				_ = syscall.Kill(pid, syscall.SIGKILL)
+				_ = syscall.Kill(-taskCmd.Process.Pid, syscall.SIGKILL) // and whatever it left in its process group
 				_ = stdoutIn.Close()
 				_ = stderrIn.Close()
+				_ = taskCmd.Wait()
 
 				log.WithField("partition", t.knownEnvironmentId.String()).
 					WithField("detector", t.knownDetector).
